@@ -219,6 +219,15 @@ theorem write_retry_bound (errs : Nat → Bool) :
   · intro k hk herr hstop
     exact writeWordAttempts_stop errs _ 0 k (by omega) hk (by omega) (fun i _ hi => herr i hi) hstop
 
+/-- T1 obligation: the positions and CRC parameters the statements above spell out as literals are the ones
+    regenerated from /repo (`STATION_ALIAS_POSITION`, `CHECKSUM_POSITION`, `ECAT_CRC_ALGORITHM`, retry limit). -/
+theorem t1_alias_constants :
+    Gen.Eeprom.STATION_ALIAS_START = 8 ∧ Gen.Eeprom.STATION_ALIAS_END = 10 ∧ Gen.Eeprom.CHECKSUM_START = 14 ∧
+    Gen.Eeprom.CHECKSUM_END = 16 ∧ Gen.Eeprom.CRC_WIDTH = 8 ∧ Gen.Eeprom.CRC_POLY = 7 ∧
+    Gen.Eeprom.CRC_INIT = 255 ∧ Gen.Eeprom.CRC_XOROUT = 0 ∧ Gen.Eeprom.CRC_REFIN = false ∧
+    Gen.Eeprom.CRC_REFOUT = false ∧ Gen.Eeprom.WRITE_RETRY_LIMIT = 20 := by
+  decide
+
 /-! ### non-vacuity: concrete instances -/
 
 set_option maxRecDepth 100000 in
